@@ -1,13 +1,13 @@
 SPECIFICATION Spec
 CONSTANTS
-  Pool <- PoolI
-  Kids <- KidsI
-  TypeOf <- TypeI
-  HashOf <- HashI
+  Pool <- PoolX
+  Kids <- KidsX
+  TypeOf <- TypeX
+  HashOf <- HashX
   MaxEnc = 3
   Aux = TRUE
-  AllowUnregistered = TRUE
-  PinDecoded = TRUE
+  AllowUnregistered = FALSE
+  PinDecoded = FALSE
   SeenByHashOnly = FALSE
   Emitting = TRUE
 CHECK_DEADLOCK FALSE
